@@ -374,6 +374,81 @@ func deepCases(emit func(Case)) int {
 	return n
 }
 
+// heldCase: a ONCE / POLL walk whose sender is parked at its first Send (the
+// stream's gate is closed) until writers have changed the cache: deletes of
+// leaves the walk has already queued, new values for them, other writes.  The
+// queued leaves are read when they are sent.  Judged by the weak clause.
+func (g *gen) heldCase() Case {
+	r := g.r
+	targets := []string{"t1", "t2"}
+	c := Case{Targets: targets}
+	ninit := 4 + r.Intn(6)
+	for i := 0; i < ninit; i++ {
+		c.Ops = append(c.Ops, g.cacheStep(targets, false, false))
+	}
+	init := append([]Step{}, c.Ops...)
+	mode := 1 + r.Intn(2)
+	c.Req = g.request(targets, mode)
+	c.Req.HasSub = true
+	if c.Req.Prefix == nil || c.Req.Prefix.Target == "" || c.Req.Prefix.Target == "tx" || r.Chance(1, 2) {
+		c.Req.Prefix = &GPath{Target: []string{"*", "t1", "t2"}[r.Intn(3)]}
+		if r.Chance(1, 2) {
+			c.Req.Subs = []*GPath{{}}
+		}
+	}
+	write := func(b int) Step {
+		if r.Chance(1, 2) {
+			// delete (part of) the subtree of a leaf written earlier
+			for tries := 0; tries < 10; tries++ {
+				o := init[r.Intn(len(init))]
+				if o.K != "update" || len(o.N.Upds) == 0 || o.N.Prefix.Target == "tx" {
+					continue
+				}
+				g.ts += 1 + int64(r.Intn(2))
+				el := o.N.Upds[0].Path.Elems
+				if o.N.Atomic {
+					el = nil
+				}
+				n := &Noti{TS: g.ts, Prefix: o.N.Prefix, Dels: []GPath{{Elems: el[:r.Intn(len(el)+1)]}}}
+				if len(n.Dels[0].Elems) == 0 && len(n.Prefix.Elems) == 0 && n.Prefix.Origin == "" {
+					n.Dels[0].Elems = []Elem{el2("*")}
+				}
+				return Step{K: "update", N: n, Burst: b}
+			}
+		}
+		st := g.burstWrite(targets, b)
+		st.Gate = 0
+		return st
+	}
+	round := func(first string) {
+		c.Ops = append(c.Ops, Step{K: first, Burst: 1, Seq: true, Hold: true})
+		k := 1 + r.Intn(4)
+		for i := 0; i < k; i++ {
+			b := 1
+			if i == k-1 {
+				b = 2
+			}
+			c.Ops = append(c.Ops, write(b))
+		}
+	}
+	round("sub")
+	if mode == 2 {
+		for p := r.Intn(3); p > 0; p-- {
+			if r.Chance(1, 2) {
+				c.Ops = append(c.Ops, g.cacheStep(targets, false, false))
+			}
+			if r.Chance(2, 3) {
+				round("poll")
+			} else {
+				c.Ops = append(c.Ops, Step{K: "poll"})
+			}
+		}
+	}
+	return c
+}
+
+func el2(n string) Elem { return Elem{Name: n} }
+
 func familyOf(base string, c Case) string {
 	for _, o := range c.Ops {
 		if o.Burst != 0 {
@@ -400,7 +475,7 @@ func nontrivial(c *Case) bool {
 func main() {
 	o := vh.ParseFlags()
 	quietLogs()
-	meta := vh.NewMeta("corpus cases; grid: one fixed two-target cache (origins, keyed element, atomic container), every ONCE query path over {a,b,*} of length 0..3 x origin placement {none, prefix oc, path oc, prefix foo, first element in the prefix} x target {t1,*}; deep-paths: 20 ONCE/POLL requests on index paths of 24 strings (beyond ToStrings' capacity constant 20) differing only at the end; sibling-prefix: 32 ONCE/POLL requests with two paths related as strings but not as paths (a/b & a/bb, b[k=1] & b[k=10], a & ab; both orders); random: 1-3 targets, 2-10 initial notifications (single/multi update, atomic, delete, keyed elements, origins in prefix or path), one request (ONCE/POLL/few STREAM; 1-3 subscription paths of length 0..3 with globs at any position, origins in prefix/path incl. conflicts, missing path/prefix/target, unknown target, updates_only), POLL: 0-3 triggers with 0-2 cache edits (updates, deletes, target removal) before each; in 1/6 of the ONCE/POLL cases the walk is overlapped by 2-6 concurrent single-update/delete writes (one writer goroutine per target), judged by the weak clause; half of the ONCE/POLL cases are perturbed at a schedule point of the coalescing queue: producers yield ~40us at insert:checked (so that the sender can drain and park between Insert's checks and the locked insert) or the consumer yields ~150us at next:empty (so that the walker can insert the rest and close the queue before the sender selects); idle-timeout: 22 (thorough 160) POLL/STREAM scripts on a server with WithTimeout(100ms) in which the client idles 320 ms after a received sync before the next trigger / update / EOF; target-churn: 120 (thorough 1500) ONCE/POLL scripts, 80% on target *, whose walks (initial and poll rounds) are overlapped by a loop of Cache.Remove/Cache.Add of a spare target plus 0-2 leaf writes. in every generated family (not corpus): with small probability a target and/or the deprecated element list on subscription paths, ignored request fields (Subscription.mode/sample_interval/heartbeat/suppress_redundant, qos, allow_aggregation, use_models, encoding, extension) and another construction of the server (options permuted, nil options interleaved, WithStats/WithFlowControlTest/stats hooks/explicit default timeout added). distinct = distinct inputs; non-trivial = the RPC ended OK and at least one update was delivered")
+	meta := vh.NewMeta("corpus cases; grid: one fixed two-target cache (origins, keyed element, atomic container), every ONCE query path over {a,b,*} of length 0..3 x origin placement {none, prefix oc, path oc, prefix foo, first element in the prefix} x target {t1,*}; deep-paths: 20 ONCE/POLL requests on index paths of 24 strings (beyond ToStrings' capacity constant 20) differing only at the end; sibling-prefix: 32 ONCE/POLL requests with two paths related as strings but not as paths (a/b & a/bb, b[k=1] & b[k=10], a & ab; both orders); random: 1-3 targets, 2-10 initial notifications (single/multi update, atomic, delete, keyed elements, origins in prefix or path), one request (ONCE/POLL/few STREAM; 1-3 subscription paths of length 0..3 with globs at any position, origins in prefix/path incl. conflicts, missing path/prefix/target, unknown target, updates_only), POLL: 0-3 triggers with 0-2 cache edits (updates, deletes, target removal) before each; in 1/6 of the ONCE/POLL cases the walk is overlapped by 2-6 concurrent single-update/delete writes (one writer goroutine per target), judged by the weak clause; half of the ONCE/POLL cases are perturbed at a schedule point of the coalescing queue: producers yield ~40us at insert:checked (so that the sender can drain and park between Insert's checks and the locked insert) or the consumer yields ~150us at next:empty (so that the walker can insert the rest and close the queue before the sender selects); idle-timeout: 22 (thorough 160) POLL/STREAM scripts on a server with WithTimeout(100ms) in which the client idles 320 ms after a received sync before the next trigger / update / EOF; held-walk: 150 (thorough 2000) ONCE/POLL scripts whose sender is parked at its first Send (closed stream gate) while 1-4 writes land between the walk and the send (deletes of queued leaves, new values), initial walk and poll rounds; target-churn: 120 (thorough 1500) ONCE/POLL scripts, 80% on target *, whose walks (initial and poll rounds) are overlapped by a loop of Cache.Remove/Cache.Add of a spare target plus 0-2 leaf writes. in every generated family (not corpus): with small probability a target and/or the deprecated element list on subscription paths, ignored request fields (Subscription.mode/sample_interval/heartbeat/suppress_redundant, qos, allow_aggregation, use_models, encoding, extension) and another construction of the server (options permuted, nil options interleaved, WithStats/WithFlowControlTest/stats hooks/explicit default timeout added). distinct = distinct inputs; non-trivial = the RPC ended OK and at least one update was delivered")
 	e := &emitter{dir: o.Out, cf: newCaseFile(), meta: meta, limit: 255, require: "Subscribe.C05Check", nontriv: nontrivial}
 
 	if o.Replay == "" {
@@ -446,7 +521,7 @@ func main() {
 	meta.Extra["sibling_cases"] = siblingCases(func(c Case) { e.add("sibling-prefix", c) })
 
 	r := vh.NewRand(o.Seed)
-	nrand := 2300
+	nrand := 2150
 	if o.Thorough() {
 		nrand = 40000
 	}
@@ -477,6 +552,13 @@ func main() {
 		e.add("idle-timeout", newGen(r.Fork()).idleCase())
 	}
 	meta.Extra["idle_timeout_cases"] = nidle
+	nheld := 150
+	if o.Thorough() {
+		nheld = 2000
+	}
+	for i := 0; i < nheld; i++ {
+		e.add("held-walk", newGen(r.Fork()).heldCase())
+	}
 	nchurn := 120
 	if o.Thorough() {
 		nchurn = 1500
